@@ -122,6 +122,15 @@ def boxesDisjoint (tol : Rat) (rs : Array Rect) (m1 m2 : List Nat) : Bool :=
   | some a, some b => !(overlapsBoth tol a b)
   | _, _ => true
 
+/-- `r` lies inside `b`, up to `tol` on every side -/
+def withinTol (tol : Rat) (r b : Rect) : Bool :=
+  decide (b.minX ≤ r.minX + tol) && decide (r.maxX ≤ b.maxX + tol) &&
+  decide (b.minY ≤ r.minY + tol) && decide (r.maxY ≤ b.maxY + tol)
+
+/-- every member rectangle lies inside the container rectangle (rectangle-based clusters) -/
+def membersWithin (tol : Rat) (rs : Array Rect) (container : Nat) (members : List Nat) : Bool :=
+  members.all fun i => withinTol tol (rs.getD i default) (rs.getD container default)
+
 /-- the centre of rectangle `r` lies more than `tol` inside `b` in both dimensions -/
 def centreInside (tol : Rat) (b r : Rect) : Bool :=
   decide (b.minX + tol < r.centre .x) && decide (r.centre .x + tol < b.maxX) &&
